@@ -174,8 +174,11 @@ def locate(lang, text, P, with_newtype):
 
 
 # Go: uppercase_acronyms lists of the site phases (given in lower, upper and mixed case; `go` hits the mapped name MappedGo,
-# `time` the mapped name time.Time, id / url / uuid / foo the user types UserId, Url, Uuid, Foo; xy, yZw: a non-idempotent pair)
-GO_ACRONYMS = [[], [], ['id'], ['ID', 'url'], ['id', 'url', 'uuid', 'api'], ['foo', 'go', 'Time'], ['xy', 'yZw', 'Id']]
+# `time` the mapped name time.Time, id / url / uuid / foo the user types UserId, Url, Uuid, Foo; xy, yZw: a non-idempotent pair;
+# no / it / con / ba / po occur in Node, Item, Config, Bar, Baz, Point followed by a lower-case letter: they must NOT be rewritten)
+GO_ACRONYMS = [[], [], ['id'], ['ID', 'url'], ['id', 'url', 'uuid', 'api'], ['foo', 'go', 'Time'], ['xy', 'yZw', 'Id'],
+               # occurrences FOLLOWED BY A LOWER-CASE LETTER must stay (Node, Item, Config, Bar, Point: go.rs:588)
+               ['no', 'it', 'id'], ['con', 'ba', 'po', 'url']]
 
 
 def go_cfg(rng, cfg):
